@@ -728,8 +728,30 @@ def _parse_decl(st):
     return res
 
 
+def _unroll_barrier_loops(stmts):
+    """a sequential loop with literal bounds (at most 4 iterations) whose body contains a barrier is unrolled into its parent
+    statement list: the end of one iteration and the start of the next belong to the SAME phase unless a barrier separates
+    them, which the loop form of the emulation (one thread loop per segment of the body) cannot express - it would put an
+    implicit barrier at the back edge and hide a missing one.  Loops with run-time bounds keep the loop form (stated bound)."""
+    out = []
+    for st in stmts:
+        m = re.match(r'for\s*\(\s*int\s+(\w+)\s*=\s*(-?\d+)\s*;\s*\1\s*<\s*(-?\d+)\s*;\s*(?:\+\+\s*\1|\1\s*\+\+|\1\s*\+=\s*1)\s*\)', st) if 'VERIF_BARRIER' in st else None
+        if m:
+            v, lo, hi = m.group(1), int(m.group(2)), int(m.group(3))
+            body = st[m.end():].strip()
+            if 0 < hi - lo <= 4 and body.startswith('{') and _match(body, 0, '{', '}') == len(body) and not re.search(r'\b(break|continue)\b', body) \
+                    and not re.search(r'(?<![\w.])%s\s*(=(?!=)|\+=|-=|\+\+|--)|(\+\+|--)\s*%s\b' % (re.escape(v), re.escape(v)), body):
+                inner = _split_statements(body[1:-1])
+                for k in range(lo, hi):
+                    out += _unroll_barrier_loops([re.sub(r'(?<![\w.>])%s\b' % re.escape(v), '(%d)' % k, x) for x in inner])
+                continue
+        out.append(st)
+    return out
+
+
 def _phase_block(stmts, hoisted, shared):
     out = []; seg = []
+    stmts = _unroll_barrier_loops(stmts)
     def flush():
         if seg:
             out.append('VERIF_FOR_THREADS {\n' + '\n'.join(seg) + '\n}')
@@ -780,6 +802,11 @@ def phase_transform(text):
         hoisted = []; shared = []
         body = _phase_block(_split_statements(text[bs + 1:be - 1]), hoisted, shared)
         pre = list(shared)
+        uniq = []
+        for h in hoisted:
+            if h[1] not in [u[1] for u in uniq]:
+                uniq.append(h)       # the copies of an unrolled loop body declare the same variables again
+        hoisted = uniq
         for (ty, nm, dims) in hoisted:
             pre.append('static %s %s_pt[VERIF_NT]%s;\n#define %s %s_pt[verif_tid]' % (ty.replace('const ', ''), nm, dims, nm, nm))
         post = ['#undef %s' % nm for (_, nm, _) in hoisted]
